@@ -46,3 +46,159 @@ theorem parseHex_hexN : ∀ (w acc v : Nat) (rest : Str), v < 16 ^ w →
 
 end PyStr
 end PP
+
+namespace PP
+namespace PyStr
+
+theorem hexN_length : ∀ (w v : Nat), (hexN w v).length = w
+  | 0, _ => rfl
+  | w + 1, v => by simp [hexN, hexN_length w]
+
+theorem hexAt_hexN (w v : Nat) (r : Str) (hv : v < 16 ^ w) : hexAt w (hexN w v ++ r) = some v ∧ (hexN w v ++ r).drop w = r := by
+  have hl := hexN_length w v
+  have ht : (hexN w v ++ r).take w = hexN w v := by
+    rw [List.take_append_of_le_length (by omega), List.take_of_length_le (by omega)]
+  have hp := parseHex_hexN w 0 v [] hv
+  simp only [Nat.zero_mul, Nat.zero_add, List.append_nil] at hp
+  constructor
+  · unfold hexAt; rw [ht, hp]; simp [hl]
+  · rw [List.drop_append_of_le_length (by omega), List.drop_of_length_le (by omega)]; rfl
+
+theorem unescape_plain (q c : Nat) (r : Str) (h1 : c ≠ q) (h2 : c ≠ 10) (h3 : c ≠ BS) :
+    unescape q (c :: r) = (unescape q r).map (c :: ·) := by
+  cases r with
+  | nil =>
+    have e0 : unescape q [] = some [] := by rw [unescape]
+    rw [e0]; rw [unescape]; simp [h1, h2, h3, e0]
+  | cons e r' => conv => lhs; rw [unescape]
+                 simp [h1, h2, h3]
+
+theorem bs_ok (q : Nat) (hq : q = SQ ∨ q = DQ) : (BS == q || BS == 10) = false := by
+  rcases hq with rfl | rfl <;> decide
+
+theorem unescape_simple (q e : Nat) (r : Str) (hq : q = SQ ∨ q = DQ) (he : e = BS ∨ e = SQ ∨ e = DQ) :
+    unescape q (BS :: e :: r) = (unescape q r).map (e :: ·) := by
+  rw [unescape]
+  simp only [bs_ok q hq, Bool.false_eq_true, if_false, beq_self_eq_true, if_true]
+  rcases he with rfl | rfl | rfl <;> simp
+
+theorem unescape_ctrl (q e v : Nat) (r : Str) (hq : q = SQ ∨ q = DQ)
+    (he : (e = 110 ∧ v = 10) ∨ (e = 114 ∧ v = 13) ∨ (e = 116 ∧ v = 9)) :
+    unescape q (BS :: e :: r) = (unescape q r).map (v :: ·) := by
+  rw [unescape]
+  simp only [bs_ok q hq, Bool.false_eq_true, if_false, beq_self_eq_true, if_true]
+  rcases he with ⟨rfl, rfl⟩ | ⟨rfl, rfl⟩ | ⟨rfl, rfl⟩ <;> simp [BS, SQ, DQ]
+
+theorem unescape_hex (q e w v : Nat) (r : Str) (hq : q = SQ ∨ q = DQ)
+    (he : (e = 120 ∧ w = 2) ∨ (e = 117 ∧ w = 4) ∨ (e = 85 ∧ w = 8)) (hv : v < 16 ^ w) :
+    unescape q (BS :: e :: (hexN w v ++ r)) = (unescape q r).map (v :: ·) := by
+  rw [unescape]
+  simp only [bs_ok q hq, Bool.false_eq_true, if_false, beq_self_eq_true, if_true]
+  obtain ⟨h1, h2⟩ := hexAt_hexN w v r hv
+  rcases he with ⟨rfl, rfl⟩ | ⟨rfl, rfl⟩ | ⟨rfl, rfl⟩ <;> simp [BS, SQ, DQ, h1, h2]
+
+end PyStr
+end PP
+
+namespace PP
+namespace PyStr
+
+theorem decode_rest_str (q : Nat) (hq : q = SQ ∨ q = DQ) (c : PChar) (hw : c.cp < 1114112)
+    (h1 : c.cp ≠ q) (h2 : c.cp ≠ BS) (tail : Str) :
+    unescape q (reprRestStr c ++ tail) = (unescape q tail).map (c.cp :: ·) := by
+  unfold reprRestStr
+  simp only []
+  split
+  · rename_i h; have : c.cp = 9 := by simpa using h
+    rw [this]; exact unescape_ctrl q 116 9 tail hq (Or.inr (Or.inr ⟨rfl, rfl⟩))
+  split
+  · rename_i _ h; have : c.cp = 10 := by simpa using h
+    rw [this]; exact unescape_ctrl q 110 10 tail hq (Or.inl ⟨rfl, rfl⟩)
+  split
+  · rename_i _ _ h; have : c.cp = 13 := by simpa using h
+    rw [this]; exact unescape_ctrl q 114 13 tail hq (Or.inr (Or.inl ⟨rfl, rfl⟩))
+  split
+  · rename_i _ _ _ h
+    have hlt : c.cp < 16 ^ 2 := by
+      simp only [Bool.or_eq_true, decide_eq_true_eq, beq_iff_eq] at h; rcases h with h | h <;> omega
+    simpa [List.append_assoc] using unescape_hex q 120 2 c.cp tail hq (Or.inl ⟨rfl, rfl⟩) hlt
+  split
+  · rename_i h9 h10 _ _ _
+    have : c.cp ≠ 10 := by simpa using h10
+    simpa using unescape_plain q c.cp tail h1 this h2
+  split
+  · rename_i h9 h10 _ _ _ _
+    have : c.cp ≠ 10 := by simpa using h10
+    simpa using unescape_plain q c.cp tail h1 this h2
+  split
+  · rename_i h
+    simpa [List.append_assoc] using unescape_hex q 120 2 c.cp tail hq (Or.inl ⟨rfl, rfl⟩) (by omega)
+  split
+  · rename_i h
+    simpa [List.append_assoc] using unescape_hex q 117 4 c.cp tail hq (Or.inr (Or.inl ⟨rfl, rfl⟩)) (by omega)
+  · simpa [List.append_assoc] using unescape_hex q 85 8 c.cp tail hq (Or.inr (Or.inr ⟨rfl, rfl⟩)) (by omega)
+
+theorem decode_rest_bytes (q : Nat) (hq : q = SQ ∨ q = DQ) (c : PChar) (hw : c.cp < 256)
+    (h1 : c.cp ≠ q) (h2 : c.cp ≠ BS) (tail : Str) :
+    unescape q (reprRestBytes c ++ tail) = (unescape q tail).map (c.cp :: ·) := by
+  unfold reprRestBytes
+  simp only []
+  split
+  · rename_i h; have : c.cp = 9 := by simpa using h
+    rw [this]; exact unescape_ctrl q 116 9 tail hq (Or.inr (Or.inr ⟨rfl, rfl⟩))
+  split
+  · rename_i _ h; have : c.cp = 10 := by simpa using h
+    rw [this]; exact unescape_ctrl q 110 10 tail hq (Or.inl ⟨rfl, rfl⟩)
+  split
+  · rename_i _ _ h; have : c.cp = 13 := by simpa using h
+    rw [this]; exact unescape_ctrl q 114 13 tail hq (Or.inr (Or.inl ⟨rfl, rfl⟩))
+  split
+  · simpa [List.append_assoc] using unescape_hex q 120 2 c.cp tail hq (Or.inl ⟨rfl, rfl⟩) (by omega)
+  · rename_i h9 h10 _ _
+    have : c.cp ≠ 10 := by simpa using h10
+    simpa using unescape_plain q c.cp tail h1 this h2
+
+/-- decoding one character's image -/
+theorem decode_char (rest : PChar → Str) (q : Nat) (hq : q = SQ ∨ q = DQ) (c : PChar)
+    (hrest : c.cp ≠ q → c.cp ≠ BS → ∀ tail, unescape q (rest c ++ tail) = (unescape q tail).map (c.cp :: ·))
+    (tail : Str) : unescape q (charOf rest q c ++ tail) = (unescape q tail).map (c.cp :: ·) := by
+  unfold charOf
+  split
+  · rename_i h
+    simp only [Bool.or_eq_true, beq_iff_eq] at h
+    rcases h with h | h
+    · rw [h]; exact unescape_simple q q tail hq (by rcases hq with rfl | rfl <;> simp)
+    · rw [h]; exact unescape_simple q BS tail hq (Or.inl rfl)
+  · rename_i h
+    simp only [Bool.or_eq_true, beq_iff_eq, not_or] at h
+    exact hrest h.1 h.2 tail
+
+theorem decode_body (rest : PChar → Str) (q : Nat) (hq : q = SQ ∨ q = DQ) :
+    ∀ (s : PS), (∀ c ∈ s, c.cp ≠ q → c.cp ≠ BS → ∀ tail, unescape q (rest c ++ tail) = (unescape q tail).map (c.cp :: ·)) →
+      unescape q (s.flatMap (charOf rest q)) = some (cps s)
+  | [], _ => by rw [List.flatMap_nil, unescape]; rfl
+  | c :: r, h => by
+    have ih := decode_body rest q hq r (fun x hx => h x (by simp [hx]))
+    rw [List.flatMap_cons, decode_char rest q hq c (h c (by simp)), ih]
+    simp [cps]
+
+/-- **C02.unescape_escape** — for both quotes and every `str` (code points below 0x110000, arbitrary printable / word /
+space bits) and every `bytes` value (bytes below 256): decoding, as a Python literal body quoted with `q`, what
+`escape_str_for_quote(q, s)` produced gives back exactly the characters of `s` -/
+theorem unescape_escape (isBytes : Bool) (q : Nat) (hq : q = SQ ∨ q = DQ) (s : PS)
+    (hw : ∀ c ∈ s, c.cp < (if isBytes then 256 else 1114112)) :
+    unescape q (escapeForQuote isBytes q s) = some (cps s) := by
+  rw [escapeForQuote_eq isBytes q hq s]
+  unfold reprBody
+  cases isBytes with
+  | true =>
+    have e : reprCharBytes q = charOf reprRestBytes q := rfl
+    simp only [if_true, e]
+    exact decode_body reprRestBytes q hq s (fun c hc h1 h2 tail => decode_rest_bytes q hq c (by simpa using hw c hc) h1 h2 tail)
+  | false =>
+    have e : reprCharStr q = charOf reprRestStr q := rfl
+    simp only [Bool.false_eq_true, if_false, e]
+    exact decode_body reprRestStr q hq s (fun c hc h1 h2 tail => decode_rest_str q hq c (by simpa using hw c hc) h1 h2 tail)
+
+end PyStr
+end PP
